@@ -4,7 +4,7 @@
 From Coq Require Import String.
 From Coq Require Import List Arith Bool ZArith NArith Lia.
 Import ListNotations.
-From YP Require Import Base.Str Term.Term Term.Fast Unify.Unify Unify.Fast Unify.Mgu Unify.Base Lang.Ast Comp.IR Comp.CompileBody Comp.CompileClause
+From YP Require Import Base.Str Term.Term Term.Fast Unify.Unify Unify.Fast Unify.Mgu Unify.Base Unify.Rename Lang.Ast Comp.IR Comp.CompileBody Comp.CompileClause
   Sem.Res Sem.RefSem Sem.SemLemmas Sem.IRSem Sem.ControlCorrect Sem.Machine Sem.ClauseSem.
 Local Open Scope string_scope.
 Local Open Scope list_scope.
@@ -162,15 +162,15 @@ Proof. reflexivity. Qed.
 
 (* findall(T, G, L): exactly the answers of unifying L with the list of the instances of T (one per
    answer of G, in order), computed from the store of the CALL (sto s): no binding made by G survives.
-   Variables created while an answer of G was computed are renamed to fresh ones (collect). *)
+   The instances are copies: every variable of an instance is a new one (collect with lo = 0, collect_copies). *)
 Lemma findall_spec t g l s xs :
   call_goal call g [] s = (xs, false) ->
   builtin call (s_ "findall") [t; g; l] s =
-  Some (let '(es, b) := collect (nxt s) (nxt s) t xs in unify_st {| sto := sto s; nxt := b |} l (mk_list es)).
+  Some (let '(es, b) := collect 0 (nxt s) t xs in unify_st {| sto := sto s; nxt := b |} l (mk_list es)).
 Proof. intros H. change (builtin call (s_ "findall") [t; g; l] s) with
   (Some (let '(xs, e) := call_goal call g [] s in
          if e then ([], true) else
-         let '(es, b) := collect (nxt s) (nxt s) t xs in unify_st {| sto := sto s; nxt := b |} l (mk_list es))).
+         let '(es, b) := collect 0 (nxt s) t xs in unify_st {| sto := sto s; nxt := b |} l (mk_list es))).
   rewrite H. reflexivity. Qed.
 
 Lemma shift_id lo d u : (forall v, occurs v u = true -> v < lo) -> shift_term lo d u = u.
@@ -201,14 +201,83 @@ Proof.
   apply shift_id. apply H. left; reflexivity.
 Qed.
 
+(* findall collects COPIES (lo = 0): the instance of answer x_j is the dereferenced template with every variable c
+   renamed to base_j + c - an injective renaming, the same for all occurrences within one instance - where
+   base_1 = base and base_(j+1) = base_j + nxt x_j *)
+Definition shift_by (d : nat) (t : term) : term := Rename.ren (fun c => c + d) t.
+
+Lemma shift0_ren d u : shift_term 0 d u = shift_by d u.
+Proof.
+  unfold shift_by. induction u as [a|z|q|w|f args IH] using term_ind'; cbn [shift_term Rename.ren]; auto.
+  f_equal. apply map_ext_in. intros y Hy. exact (proj1 (Forall_forall _ _) IH y Hy).
+Qed.
+
+Fixpoint copy_bases (base : nat) (xs : list st) : list nat :=
+  match xs with [] => [] | x :: r => base :: copy_bases (base + nxt x) r end.
+
+Lemma collect_copies t xs : forall base,
+  fst (collect 0 base t xs) = map (fun bx => shift_by (fst bx) (den_fast (sto (snd bx)) t)) (combine (copy_bases base xs) xs) /\
+  snd (collect 0 base t xs) = fold_left (fun b x => b + nxt x) xs base.
+Proof.
+  induction xs as [|x r IH]; intros base; cbn [collect copy_bases combine map fold_left]; [split; reflexivity|].
+  rewrite !Nat.sub_0_r. destruct (IH (base + nxt x)) as [A B].
+  destruct (collect 0 (base + nxt x) t r) as [es b]. cbn [fst snd] in *. subst es b. rewrite shift0_ren. split; reflexivity.
+Qed.
+
+(* no variable of a collected instance existed before: all of them are >= base, the counter at the call, so an
+   instance shares no variable with the caller, the goal, the template or the bag; and the variables of instance j
+   lie in [base_j, base_j + nxt x_j), ranges that are pairwise disjoint: different instances share no variable *)
+Lemma shift_by_occurs d u v : occurs v (shift_by d u) = true -> d <= v /\ occurs (v - d) u = true.
+Proof.
+  unfold shift_by. induction u as [a|z|q|w|f args IH] using term_ind'; cbn [Rename.ren occurs]; try discriminate.
+  - intros H. apply Nat.eqb_eq in H. subst v. split; [lia|]. replace (w + d - d) with w by lia. apply Nat.eqb_refl.
+  - intros H. apply existsb_exists in H. destruct H as [y [Hy Ho]]. apply in_map_iff in Hy. destruct Hy as [x0 [<- Hx]].
+    destruct (proj1 (Forall_forall _ _) IH x0 Hx Ho) as [L O]. split; [exact L|]. apply existsb_exists. exists x0. split; assumption.
+Qed.
+
+Lemma copy_bases_ge xs : forall base b, In b (copy_bases base xs) -> base <= b.
+Proof.
+  induction xs as [|x r IH]; intros base b H; cbn [copy_bases In] in H; [contradiction|].
+  destruct H as [<-|H]; [lia|]. specialize (IH _ _ H). lia.
+Qed.
+
+Lemma collect_copies_fresh t xs base e v :
+  In e (fst (collect 0 base t xs)) -> occurs v e = true -> base <= v.
+Proof.
+  intros He Hv. rewrite (proj1 (collect_copies t xs base)) in He. apply in_map_iff in He. destruct He as [[b x] [<- Hb]].
+  cbn [fst snd] in Hv. apply shift_by_occurs in Hv. destruct Hv as [L _].
+  apply in_combine_l in Hb. apply copy_bases_ge in Hb. lia.
+Qed.
+
+Lemma collect_copies_disjoint t xs : forall base i j ei ej v,
+  (forall x, In x xs -> forall w, occurs w (den_fast (sto x) t) = true -> w < nxt x) ->
+  nth_error (fst (collect 0 base t xs)) i = Some ei -> nth_error (fst (collect 0 base t xs)) j = Some ej ->
+  occurs v ei = true -> occurs v ej = true -> i = j.
+Proof.
+  induction xs as [|x r IH]; intros base i j ei ej v B Hi Hj Vi Vj.
+  - cbn [collect fst] in Hi. destruct i; discriminate.
+  - pose proof (collect_copies t (x :: r) base) as [E _]. cbn [copy_bases combine map] in E.
+    pose proof (collect_copies t r (base + nxt x)) as [Er _].
+    rewrite E in Hi, Hj. rewrite <- Er in Hi, Hj.
+    assert (Hd: forall e w, In e (fst (collect 0 (base + nxt x) t r)) -> occurs w e = true -> base + nxt x <= w)
+      by (intros e w; apply collect_copies_fresh).
+    assert (H0: forall w, occurs w (shift_by base (den_fast (sto x) t)) = true -> w < base + nxt x).
+    { intros w Hw. apply shift_by_occurs in Hw. destruct Hw as [L O]. pose proof (B x (or_introl eq_refl) _ O). lia. }
+    destruct i as [|i], j as [|j]; cbn [nth_error fst snd] in Hi, Hj.
+    + reflexivity.
+    + injection Hi as <-. pose proof (H0 _ Vi). pose proof (Hd _ _ (nth_error_In _ _ Hj) Vj). lia.
+    + injection Hj as <-. pose proof (H0 _ Vj). pose proof (Hd _ _ (nth_error_In _ _ Hi) Vi). lia.
+    + f_equal. apply (IH (base + nxt x) i j ei ej v); auto. intros y Hy. apply B. right; exact Hy.
+Qed.
+
 Lemma findall_at_most_once t g l s r : builtin call (s_ "findall") [t; g; l] s = Some r -> length (fst r) <= 1.
 Proof.
   change (builtin call (s_ "findall") [t; g; l] s) with
   (Some (let '(xs, e) := call_goal call g [] s in
          if e then ([], true) else
-         let '(es, b) := collect (nxt s) (nxt s) t xs in unify_st {| sto := sto s; nxt := b |} l (mk_list es))).
+         let '(es, b) := collect 0 (nxt s) t xs in unify_st {| sto := sto s; nxt := b |} l (mk_list es))).
   intros H. inversion H; subst. destruct (call_goal call g [] s) as [xs [|]]; cbn [fst length]; [lia|].
-  destruct (collect (nxt s) (nxt s) t xs) as [es b].
+  destruct (collect 0 (nxt s) t xs) as [es b].
   unfold unify_st. destruct (unify_fast _ _ _ _); cbn [fst length]; lia.
 Qed.
 
@@ -218,7 +287,7 @@ Qed.
    the store of the call.  In particular G runs in the state of the call whatever the bag is (unbound, a closed or a
    partial list, sharing variables with G or not): no binding flows from the bag into the enumeration of G. *)
 Definition findall_collected (t g : term) (s : st) : option (list term * nat) :=
-  let '(xs, e) := call_goal call g [] s in if e then None else Some (collect (nxt s) (nxt s) t xs).
+  let '(xs, e) := call_goal call g [] s in if e then None else Some (collect 0 (nxt s) t xs).
 
 Lemma findall_bag_after_enumeration t g s :
   exists r : option (list term * nat),
@@ -232,9 +301,9 @@ Proof.
   change (builtin call (s_ "findall") [t; g; l] s) with
   (Some (let '(xs, e) := call_goal call g [] s in
          if e then ([], true) else
-         let '(es, b) := collect (nxt s) (nxt s) t xs in unify_st {| sto := sto s; nxt := b |} l (mk_list es))).
+         let '(es, b) := collect 0 (nxt s) t xs in unify_st {| sto := sto s; nxt := b |} l (mk_list es))).
   unfold findall_collected. destruct (call_goal call g [] s) as [xs [|]]; [reflexivity|].
-  destruct (collect (nxt s) (nxt s) t xs) as [es b]. reflexivity.
+  destruct (collect 0 (nxt s) t xs) as [es b]. reflexivity.
 Qed.
 
 (* consequence: two calls that differ only in the bag see the same collected list; whether each succeeds is the
